@@ -63,13 +63,15 @@ def check_regraph(text, seed):
     if r[0] != "ok":
         return None
     p = r[1]
+    fresh = core.impl_loads(text)[1]          # a second, independent object: never converted before
     with core.quiet():
         to_DiGraph(p)
-        for o in p._operations:
+        for o, o2 in zip(p._operations, fresh._operations):
             if rng.random() < 0.5:
                 o["modes"] = [(int(m) + 1) % 8 for m in o["modes"]]
+                o2["modes"] = list(o["modes"])
         g1 = to_DiGraph(p)
-        g2 = to_DiGraph(copy.deepcopy(p))
+        g2 = to_DiGraph(fresh)
 
     def desc(g):
         return (sorted((n, g.nodes[n]["name"], tuple(g.nodes[n]["modes"])) for n in g.nodes()), sorted(g.edges()))
